@@ -37,6 +37,7 @@ Scale(s, a) == [p \in 1..Len(a) |-> s * a[p]]
 RECURSIVE Den(_, _, _)
 Den(e, env, n) == TLCEval(
     CASE e.k = "t" -> env[e.n]
+      [] e.k = "s" -> [p \in 1..(n * n) |-> e.v]                    \* an arithmetic scalar, broadcast
       [] e.k \in {"add", "sub", "mul"} -> EW(e.k, Den(e.l, env, n), Den(e.r, env, n))
       [] e.k = "mm" -> MatMul(Den(e.l, env, n), Den(e.r, env, n), n)
       [] e.k = "trans" -> Transp(Den(e.x, env, n), n)
@@ -48,7 +49,7 @@ Den(e, env, n) == TLCEval(
 
 \* exactness domain: every inverted sub-expression is unimodular
 RECURSIVE Dom(_, _, _)
-Dom(e, env, n) == CASE e.k = "t" -> TRUE
+Dom(e, env, n) == CASE e.k \in {"t", "s"} -> TRUE
                     [] e.k \in {"add", "sub", "mul", "mm"} -> Dom(e.l, env, n) /\ Dom(e.r, env, n)
                     [] e.k = "inv" -> Dom(e.x, env, n) /\ Unimodular(Den(e.x, env, n), n)
                     [] e.k \in {"trans", "adj", "cof"} -> Dom(e.x, env, n)
@@ -60,11 +61,12 @@ Expected(x, e, env, n) == Comb2(x, env["D"], Den(e, env, n))
 
 \* requires_evaluation_v: the tree contains an evaluation-requiring node
 RECURSIVE Req(_)
-Req(e) == CASE e.k = "t" -> FALSE
+Req(e) == CASE e.k \in {"t", "s"} -> FALSE
             [] e.k \in {"add", "sub", "mul"} -> Req(e.l) \/ Req(e.r)
             [] OTHER -> TRUE
 RECURSIVE Alias(_)
 Alias(e) == CASE e.k = "t" -> e.n = "D"
+              [] e.k = "s" -> FALSE
               [] e.k \in {"add", "sub", "mul", "mm"} -> Alias(e.l) \/ Alias(e.r)
               [] e.k \in {"sdet", "strace"} -> Alias(e.x) \/ Alias(e.y)
               [] OTHER -> Alias(e.x)
